@@ -568,7 +568,10 @@ def rule_find_base(ctx, R, NR, BR):
                 # a free slot: the next label is examined; acceptance only once the labels ran out
                 okg = v_used is not None and v_free is not None and not (v_used & accb) and pull not in v_used and \
                     pull in v_free and not (v_free & accb) and not (v_free & set(db.return_blocks())) and \
-                    all(db.edge_guards((psw[0][0], none_a), ab) for ab in accb)
+                    all(db.dominates(pull, ab) for ab in accb)
+                # (acceptance lies behind the label pull, and — by the two explorations — is not reached from its Some arm before the
+                # next pull: so only through the None arm, "the labels ran out"; stated this way the verdict may also travel in a
+                # bool returned by an inlined predicate and be tested after the join)
                 if okg:
                     # ... and it IS accepted then (unless another test, e.g. the used-base test, rejects it)
                     v_end = cond.explore(dv, [none_a], [], stop=outer)
